@@ -35,7 +35,7 @@ META = dict(
 
 FEATURES = ['sphere', 'conic', 'asphere', 'polynomial', 'chebyshev', 'mirror', 'catalogue-glass', 'abbe-glass', 'absorbing-ideal',
             'simple-coating', 'fresnel-coating', 'lambertian', 'gaussian-bsdf', 'aperture', 'obscuration', 'vignetting', 'pol-state',
-            'unpolarized', 'telecentric', 'pickup', 'solve', 'decenter-tilt']
+            'unpolarized', 'telecentric', 'pickup', 'solve', 'decenter-tilt', 'ranged-glass', 'coated-mirror']
 EDITS = ['set_thickness', 'set_thickness0', 'set_radius', 'set_conic', 'set_index', 'scale_system', 'image_solve', 'update', 'optimise']
 
 
@@ -73,7 +73,7 @@ def make_lens(features, v):
         s3 = S('poly', R=4 * R, k=0.0, coeffs=[[0.0, 1e-3], [2e-3, 1e-4]], mat='air', t=30.0)
     if 'chebyshev' in f:
         s3 = S('cheb', R=5 * R, k=0.0, coeffs=[[0.0, 0.01, 0.002], [0.02, 0.0, 0.0]], norm=[120.0, 90.0], mat='air', t=30.0)
-    if 'mirror' in f:
+    if 'mirror' in f or 'coated-mirror' in f:
         s3 = dict(s3, mat='mirror', t=-25.0)
         if s3['shape'] == 'plane':
             s3 = S('sphere', R=-6 * R, mat='mirror', t=-25.0)
@@ -83,6 +83,11 @@ def make_lens(features, v):
         s1 = dict(s1, mat=['abbe', 1.62, 36.0])
     if 'absorbing-ideal' in f:
         s1 = dict(s1, mat=['ideal', p['n2'], 2e-6])
+    if 'ranged-glass' in f:
+        # SF6 is both a SCHOTT glass and a gas in the catalogue: the wavelength range given decides which data set is meant
+        s1 = dict(s1, mat=['catr', 'SF6', 0.6, 1.5])
+    if 'coated-mirror' in f:
+        s3 = dict(s3, coating=['simple', 0.04, 0.88])
     if 'simple-coating' in f:
         s2 = dict(s2, coating=['simple', 0.9, 0.1])
     if 'fresnel-coating' in f:
